@@ -193,6 +193,9 @@ pub fn model_name(m: rt::Model) -> &'static str {
 /// `vh worker <instance> <cfg flags> [--deciding Cxx] [--known file]`: serves probe / explore
 /// requests read from stdin.
 pub fn worker_main(inst: &Inst, cfg: &rt::Config, deciding: Option<&str>, known: &[crate::prop::Known]) {
+    if let Ok(p) = std::env::var("VERIF_CRASH_NOTE") {
+        rt::set_crash_note_file(&p);
+    }
     let stdin = std::io::stdin();
     let stdout = std::io::stdout();
     for line in stdin.lock().lines() {
@@ -357,6 +360,7 @@ struct Shared {
 }
 
 struct WorkerProc {
+    note: String,
     child: Child,
     stdin: std::process::ChildStdin,
     stdout: BufReader<std::process::ChildStdout>,
@@ -375,11 +379,20 @@ fn spawn_worker(bin: &str, inst_name: &str, cfg: &rt::Config, deciding: Option<&
     if let Some(k) = known_file {
         cmd.args(["--known", k]);
     }
+    static SEQ: AtomicUsize = AtomicUsize::new(0);
+    let note = format!(
+        "{}/crash-note-{}-{}.txt",
+        std::env::var("VERIF_SCRATCH").unwrap_or_else(|_| "/verif/.target/scratch".into()),
+        std::process::id(),
+        SEQ.fetch_add(1, Ordering::Relaxed)
+    );
+    let _ = std::fs::create_dir_all(std::path::Path::new(&note).parent().unwrap());
+    cmd.env("VERIF_CRASH_NOTE", &note);
     cmd.stdin(Stdio::piped()).stdout(Stdio::piped()).stderr(Stdio::inherit());
     let mut child = cmd.spawn()?;
     let stdin = child.stdin.take().unwrap();
     let stdout = BufReader::new(child.stdout.take().unwrap());
-    Ok(WorkerProc { child, stdin, stdout })
+    Ok(WorkerProc { note, child, stdin, stdout })
 }
 
 /// Sends one request and waits for the reply. Anything the worker prints that is not a reply is
@@ -398,12 +411,14 @@ fn request(w: &mut WorkerProc, t: &Task) -> Result<JResult, String> {
         let n = w.stdout.read_line(&mut line).map_err(|e| format!("worker pipe: {}", e))?;
         if n == 0 {
             let status = w.child.wait().map(|s| s.to_string()).unwrap_or_default();
+            let crashed_at = std::fs::read_to_string(&w.note).unwrap_or_default();
             return Err(format!(
-                "worker died ({}) while handling {}{}: {}",
+                "worker died ({}) while handling {}{}: {} CRASHED-AT[{}]",
                 status,
                 c,
                 prefix_to_string(&t.prefix),
-                noise.join(" | ")
+                noise.join(" | "),
+                crashed_at.trim()
             ));
         }
         if let Some(j) = line.strip_prefix("@@ ") {
@@ -605,8 +620,62 @@ pub fn run_sharded(inst_name: &str, cfg: &rt::Config, opts: &ShardOpts) -> Merge
                         }
                     }
                     Err(e) => {
-                        shared.errors.lock().unwrap().push(e);
-                        shared.stop.store(true, Ordering::SeqCst);
+                        // A worker killed by a signal while executing the code under test: the code
+                        // crashed the process (memory corruption, abort). The execution it died in
+                        // is known from its crash note; confirm with two fresh one-shot workers.
+                        let mut handled = false;
+                        if e.contains("signal:") {
+                            if let Some(at) = e.split("CRASHED-AT[").nth(1).and_then(|s| s.split(']').next()) {
+                                let choices = parse_prefix(at);
+                                let mut died = 0;
+                                for _ in 0..2 {
+                                    if let Ok(mut w) = spawn_worker(&bin, &inst_name, &cfg, deciding.as_deref(), known_file.as_deref()) {
+                                        let t = Task { kind: TaskKind::Verify, prefix: choices.clone(), level: 0 };
+                                        if let Err(e2) = request(&mut w, &t) {
+                                            if e2.contains("signal:") {
+                                                died += 1;
+                                            }
+                                        }
+                                        let _ = w.child.kill();
+                                        let _ = w.child.wait();
+                                        let _ = std::fs::remove_file(&w.note);
+                                    }
+                                }
+                                if died == 2 {
+                                    let sig = e.split("signal:").nth(1).and_then(|s| s.split(')').next()).unwrap_or("?").trim().to_string();
+                                    let v = JViol {
+                                        instance: inst_name.clone(),
+                                        property: "C01,C13".into(),
+                                        oracle: "crash".into(),
+                                        message: format!("the process executing the code under test was killed by signal {}) - memory corruption or abort; it dies again, deterministically, when this choice vector is replayed", sig),
+                                        choices,
+                                        cfg: runner::cfg_string(&cfg),
+                                        trace: vec![format!("(no trace: the process dies; run `vh trace {} <choices>` under a debugger)", inst_name)],
+                                        deterministic: true,
+                                    };
+                                    let mut m = shared.merged.lock().unwrap();
+                                    let decides = deciding.as_deref().map(|d| v.property.split(',').any(|p| p == d)).unwrap_or(true);
+                                    if decides {
+                                        if m.deciding.is_none() {
+                                            m.deciding = Some(v);
+                                        }
+                                        shared.stop.store(true, Ordering::SeqCst);
+                                    } else {
+                                        *m.others.entry(v.property.clone()).or_insert(0) += 1;
+                                        if m.first_other.is_none() {
+                                            m.first_other = Some(v);
+                                        }
+                                        // the rest of this subtree is lost
+                                        shared.errors.lock().unwrap().push(format!("an execution of {} crashed the worker (other property: C01,C13); its subtree was not completed", inst_name));
+                                    }
+                                    handled = true;
+                                }
+                            }
+                        }
+                        if !handled {
+                            shared.errors.lock().unwrap().push(e);
+                            shared.stop.store(true, Ordering::SeqCst);
+                        }
                         proc = None;
                     }
                 }
@@ -620,6 +689,7 @@ pub fn run_sharded(inst_name: &str, cfg: &rt::Config, opts: &ShardOpts) -> Merge
                 drop(p.stdin);
                 let _ = p.child.kill();
                 let _ = p.child.wait();
+                let _ = std::fs::remove_file(&p.note);
             }
         }));
     }
@@ -631,7 +701,15 @@ pub fn run_sharded(inst_name: &str, cfg: &rt::Config, opts: &ShardOpts) -> Merge
     let q = shared.queue.lock().unwrap();
     m.complete = errs.is_empty() && m.deciding.is_none() && q.0.is_empty();
     if !errs.is_empty() {
-        m.error = Some(errs.join("; "));
+        let mut uniq: Vec<String> = Vec::new();
+        for e in &errs {
+            if !uniq.contains(e) {
+                uniq.push(e.clone());
+            }
+        }
+        let n = uniq.len();
+        uniq.truncate(3);
+        m.error = Some(format!("{}{}", uniq.join("; "), if n > 3 { format!("; … ({} more)", n - 3) } else { String::new() }));
     }
     m.distinct_outcomes = m.outcomes.len();
     m.wall_s = t0.elapsed().as_secs_f64();
